@@ -141,7 +141,7 @@ struct Ev {
     payload: u64,
 }
 fn show_evs(evs: &[Ev]) -> String {
-    format!("[{}]", evs.iter().map(|e| format!("{}:{}:{}:{}", if e.force { 1 } else { 0 }, e.emitter, e.name, e.payload)).collect::<Vec<_>>().join(","))
+    format!("[{}]", evs.iter().map(|e| format!("{}:{}:{}", e.emitter, e.name, e.payload)).collect::<Vec<_>>().join(","))
 }
 
 enum FinOp {
@@ -300,12 +300,10 @@ impl UR {
                 Emitter::Method(n, _) => n.0[0] as u64,
                 _ => 255,
             };
-            // the flag is not part of the result; recover it from the emission record
+            // the flag is not part of the result
             let payload: u64 = scrypto_decode(&payload).unwrap();
             let name: u64 = name.parse().unwrap();
-            let force = self.all_events.iter().any(|e| e.force && e.emitter == emitter && e.name == name && e.payload == payload)
-                && !self.all_events.iter().any(|e| !e.force && e.emitter == emitter && e.name == name && e.payload == payload);
-            out_evs.push(Ev { force, emitter, name, payload });
+            out_evs.push(Ev { force: false, emitter, name, payload });
         }
         let n_runtime = out_evs.len();
         out_evs.extend(self.fin_events.iter().cloned());
@@ -362,7 +360,8 @@ impl UR {
             }
         }
         let surv: Vec<Ev> = out_evs[..n_runtime].to_vec();
-        if surv != self.forced_events {
+        let forced_plain: Vec<Ev> = self.forced_events.iter().map(|e| Ev { force: false, ..e.clone() }).collect();
+        if surv != forced_plain {
             return Answer::fail(ans, "failure:events", format!("surviving runtime events {} but the force-flagged ones were {}", show_evs(&surv), show_evs(&self.forced_events)));
         }
         Answer::ok(ans)
@@ -718,6 +717,9 @@ impl UR {
         let mut ops: Vec<FinOp> = vec![];
         let mut evs: Vec<Ev> = vec![];
         let rev: Vec<(u64, u64, SubstateKey, u64)> = self.locked.iter().rev().cloned().collect();
+        // the payment list of the line is cycled over the fee locks (`-` = no payments at all)
+        let payments: Vec<u64> = if c.payments.is_empty() { vec![] } else { (0..rev.len()).map(|i| c.payments[i % c.payments.len()]).collect() };
+        let c = CommitArgs { payments, ..c };
         if rev.len() != c.payments.len() {
             self.phase = Phase::Poisoned;
             return Answer::ok("panic");
@@ -852,7 +854,7 @@ impl Area for U {
             };
             if case % 3 != 0 {
                 // one-shot create_commit_receipt; payments mostly line up with the number of locks
-                let np = if rng.chance(9, 10) { nlocks.min(6) } else { rng.below(4) as usize };
+                let np = if rng.chance(9, 10) { 1 + (nlocks.min(5)) } else { rng.below(4) as usize };
                 let pays: Vec<String> = (0..np).map(|_| { let big = rng.chance(1, 10); rng.below(if big { 2000 } else { 30 }).to_string() }).collect();
                 let (tp, tv) = if rng.chance(1, 5) { (0, 0) } else { (rng.below(20), rng.below(20)) };
                 writeln!(
@@ -1231,7 +1233,8 @@ fn judge(w: &World, s: u64, k: u64, before: &Snapshot, after: &Snapshot, receipt
             }
             None
         }
-        TransactionResult::Commit(c) if c.outcome.is_success() => None,
+        // VERIF_C02_SELFTEST=1: judge successful commits as if they were failures (the oracle must object)
+        TransactionResult::Commit(c) if c.outcome.is_success() && std::env::var("VERIF_C02_SELFTEST").is_err() => None,
         TransactionResult::Commit(c) => {
             let bal_sk = field_sk(FungibleVaultField::Balance.into());
             let rewards_sk = field_sk(ConsensusManagerField::ValidatorRewards.into());
